@@ -42,6 +42,18 @@ pub fn run_program(p: &Program, focus: Focus, st: &mut Stats) -> CheckResult {
         }
     } else {
         sh.invariants()?;
+        // the textual rendering of the store lists exactly the node table
+        let shown = format!("{}", sh.bdd);
+        let lines: Vec<&str> = shown.lines().filter(|l| !l.trim().is_empty()).collect();
+        if lines.len() != sh.bdd.nodes.len() {
+            return Err(format!("Display for Bdd prints {} node lines for {} nodes", lines.len(), sh.bdd.nodes.len()));
+        }
+        for (i, (l, n)) in lines.iter().zip(sh.bdd.nodes.iter()).enumerate() {
+            let want = format!("{i} BddNode: Var({}), lo: Term({}), hi: Term({})", n.var().value(), n.lo().value(), n.hi().value());
+            if l.trim() != want {
+                return Err(format!("Display for Bdd prints {l:?} for node {i}, the table holds {want:?}"));
+            }
+        }
         // valid / unsatisfiable collapse to the constants
         for (h, t, _) in &sh.issued {
             let ones = t_count(t);
@@ -149,6 +161,80 @@ fn c06_bridge(c: &SemCase, st: &mut Stats) -> CheckResult {
     Ok(Outcome::Ok)
 }
 
+/// One very large store (size thresholds, cache limits): (x0 & y0) | ... | (x_{p-1} & y_{p-1}) with all x
+/// before all y has about 2^(p+1) nodes; building the same function a second time must create nothing.
+fn c06_huge(pairs: &usize, st: &mut Stats) -> CheckResult {
+    use adf_bdd::datatypes::Var;
+    use adf_bdd::obdd::Bdd;
+    let p = *pairs;
+    let mut bdd = Bdd::new();
+    let build = |bdd: &mut Bdd| -> Term {
+        let mut acc = Term::BOT;
+        for i in 0..p {
+            let x = bdd.variable(Var(i));
+            let y = bdd.variable(Var(p + i));
+            let c = bdd.and(x, y);
+            acc = bdd.or(acc, c);
+        }
+        acc
+    };
+    let f1 = build(&mut bdd);
+    let n1 = bdd.nodes.len();
+    let vars1: Vec<Term> = (0..2 * p).map(|v| bdd.variable(Var(v))).collect();
+    let f2 = build(&mut bdd);
+    let n2 = bdd.nodes.len();
+    let vars2: Vec<Term> = (0..2 * p).map(|v| bdd.variable(Var(v))).collect();
+    if f1 != f2 {
+        return Err(format!("store with {n1} nodes: the same function built twice has handles {} and {}", f1.value(), f2.value()));
+    }
+    if n2 != n1 {
+        return Err(format!("store with {n1} nodes: building the same function again created {} new nodes", n2 - n1));
+    }
+    if vars1 != vars2 {
+        return Err("store with many nodes: variable handles changed".into());
+    }
+    // the same function via other intermediate results (pairs in reverse order, operands swapped): many new
+    // cache entries and nodes, the same final handle
+    let f3 = {
+        let mut acc = Term::BOT;
+        for i in (0..p).rev() {
+            let x = bdd.variable(Var(i));
+            let y = bdd.variable(Var(p + i));
+            let c = bdd.and(y, x);
+            acc = bdd.or(c, acc);
+        }
+        acc
+    };
+    if f3 != f1 {
+        return Err(format!(
+            "store with {} nodes: the same function built in another order has handles {} and {}",
+            bdd.nodes.len(),
+            f1.value(),
+            f3.value()
+        ));
+    }
+    let vars3: Vec<Term> = (0..2 * p).map(|v| bdd.variable(Var(v))).collect();
+    if vars1 != vars3 {
+        return Err("store with many nodes: variable handles changed after more operations".into());
+    }
+    let nf = bdd.not(f1);
+    if bdd.or(nf, f3) != Term::TOP || bdd.and(nf, f3) != Term::BOT {
+        return Err("store with many nodes: f | !f is not TOP (or f & !f not BOT)".into());
+    }
+    structural_invariants(&bdd.nodes, Some(2 * p))?;
+    // spot-check the function on some assignments
+    for seed in 0..200u64 {
+        let a = stable_hash(&(seed, p as u64));
+        let want = (0..p).any(|i| (a >> i) & 1 == 1 && (a >> (p + i)) & 1 == 1);
+        if sut::walk(&bdd, f1, &|v| (a >> v) & 1 == 1)? != want {
+            return Err("large store: the diagram does not denote the function built".into());
+        }
+    }
+    st.count("huge_store_nodes", n1 as u64);
+    st.nontrivial(stable_hash(&p), || json!({"pairs": p, "nodes": n1}));
+    Ok(Outcome::Ok)
+}
+
 pub fn c06(tier: Tier) -> PropSpec {
     let (k, ops) = tier.pick((6u8, 60usize), (9u8, 200usize));
     PropSpec {
@@ -179,6 +265,11 @@ pub fn c06(tier: Tier) -> PropSpec {
                 200,
                 crate::props::features::probe_ops_case,
                 crate::props::features::c12_check_entry,
+            ),
+            EnumPart::new(
+                "huge-store",
+                move || Box::new(tier.pick(vec![10usize, 17], vec![12usize, 15, 18, 19]).into_iter()),
+                c06_huge,
             ),
             Part::new(
                 "adf-bridge",
@@ -218,6 +309,19 @@ pub fn c07(tier: Tier) -> PropSpec {
                 200,
                 crate::props::features::probe_ops_case,
                 crate::props::features::c12_check_entry,
+            ),
+            // imports of states with an incomplete unique table (stripped / written by another tool): sharing may be
+            // lost, every operation must still compute the function it names
+            Part::new(
+                "partial-import",
+                tier.pick(20000, 200000),
+                move || program_partial_import(k.min(6), 40),
+                |p: &Program, st| {
+                    if p.ops.iter().any(|o| matches!(o, Op::SerdePartialCache(_))) {
+                        st.label("with_partial_import");
+                    }
+                    run_program(p, Focus::Function, st)
+                },
             ),
             // many short programs on few variables: dense in cache collisions
             Part::new(
